@@ -213,7 +213,7 @@ PROPS["C17"] = {
 }
 PROPS["C18"] = {
     "jobs": [{"cmd": "c18", "shards": 32, "shards_thorough": 48}],
-    "cli": False,
+    "cli": True,
     "inventory": True,
     "trusted_base": ["M10: function-level fuzz under catch_unwind and whole-run fuzz under a watchdog (in process, all threads share one panic hook)", "panic-site inventory (tools/panic_sites.py): counts of slice/index/unwrap/expect/assert/unreachable/panic/`- 1` expressions per anchored file against the audited counts"],
     "modelled": ["byte-offset slicing is modelled by byteSplit (defined exactly on char boundaries <= len)", "panics inside std / dependencies and resource exhaustion are outside the model"],
